@@ -126,6 +126,7 @@ pub struct Interp<'a> {
     pub links: BTreeMap<PathBuf, Vec<String>>,   // link target path -> content rels that are symlinks to it
     pub targets: BTreeMap<PathBuf, Option<Vec<u8>>>, // files under $T as the environment last wrote them
     pub allow_tmp_leftovers: bool,
+    pub deferred: bool, // results are judged after the whole program ran (sysim): no peeking at the directory as it is now
 }
 
 fn norm_algo(a: Option<&str>) -> &str {
@@ -173,6 +174,7 @@ impl<'a> Interp<'a> {
             links: BTreeMap::new(),
             targets: BTreeMap::new(),
             allow_tmp_leftovers: false,
+            deferred: false,
         }
     }
 
@@ -824,6 +826,9 @@ impl<'a> Interp<'a> {
 
     /// C14: after an abandoned / rejected writer nothing may change in lookups/listing, and tmp/ drains.
     fn check_no_trace(&mut self, st: &Value, pre_list: Option<BTreeMap<String, Rec>>, how: &str) {
+        if self.deferred {
+            return; // the end-of-run checks (tmp drained, decode == model) cover it
+        }
         let flav = Self::flav(st);
         // wait (bounded real time; only ends the step) for background work of the dropped writer
         let tmp = self.cache.join("tmp");
@@ -991,7 +996,7 @@ impl<'a> Interp<'a> {
             }
             Some(c) => {
                 self.probe("damaged_content_extracted");
-                let cur = std::fs::read(self.cache.join(hash::content_rel(&sri).unwrap_or_default())).ok();
+                let cur = if self.deferred { None } else { std::fs::read(self.cache.join(hash::content_rel(&sri).unwrap_or_default())).ok() };
                 if checked {
                     if got_ok {
                         match &post {
@@ -1198,9 +1203,9 @@ impl<'a> Interp<'a> {
 
     fn judge_clear(&mut self, st: &Value, r: &Value) {
         let flav = Self::flav(st);
-        let existed = self.cache.exists() || !self.m.keys.is_empty() || !self.m.content.is_empty();
+        let existed = self.m.index_dir || !self.m.keys.is_empty() || !self.m.content.is_empty() || (!self.deferred && self.cache.exists());
         if r["r"] != "ok" {
-            if existed && self.cache.is_dir() {
+            if existed && (self.deferred || self.cache.is_dir()) {
                 self.viol("removal", format!("removal/clear/{}/{}", flav, Self::bad_result_detail(r)), format!("clear failed: {}", r));
             }
             return;
@@ -1215,7 +1220,7 @@ impl<'a> Interp<'a> {
         self.m.records.clear();
         self.m.cleared = true;
         self.m.index_dir = false;
-        let d = disk::scan(&self.cache);
+        let d = if self.deferred { disk::Disk::default() } else { disk::scan(&self.cache) };
         if !d.content.is_empty() || !d.buckets.is_empty() || !d.tmp.is_empty() || !d.other.is_empty() {
             self.viol("removal", format!("removal/clear/{}/leftovers", flav), format!("after clear the cache still holds {} content, {} bucket, {} tmp, {} other files", d.content.len(), d.buckets.len(), d.tmp.len(), d.other.len()));
         }
@@ -1309,6 +1314,7 @@ impl<'a> Interp<'a> {
         let pre_existing_regular = matches!(self.m.content.get(&rel), Some(c) if c.state != CState::Missing && !c.is_link);
         let md = std::fs::symlink_metadata(self.cache.join(&rel));
         match md {
+            _ if self.deferred => {}
             Ok(m) => {
                 if pre_existing_regular {
                     if m.file_type().is_symlink() {
